@@ -18,6 +18,7 @@ type Recorder struct {
 	seq   int
 	start time.Time
 	scn   int
+	lastT int // virtual time of the last event (for events reported from outside the bubble)
 	// counts per event name, for evidence
 	Counts map[string]int
 	// last events of the current scenario (for diagnostics)
@@ -41,8 +42,33 @@ type KV map[string]any
 func (r *Recorder) Emit(ev string, kv KV) {
 	r.mu.Lock()
 	defer r.mu.Unlock()
+	r.emitLocked(ev, kv, int(time.Since(r.start)/time.Millisecond))
+}
+
+// SeqNow: sequence number of the last event written.
+func (r *Recorder) SeqNow() (seq, scn int) {
+	r.mu.Lock()
+	defer r.mu.Unlock()
+	return r.seq, r.scn
+}
+
+// EmitIfSeq records an observation made from outside the bubble (real-time sampler) - but only if no event was
+// written since the observation began (seq, scn unchanged), so that its place in the log is exact. It carries the
+// virtual time of the preceding event.
+func (r *Recorder) EmitIfSeq(seq, scn int, ev string, kv KV) bool {
+	r.mu.Lock()
+	defer r.mu.Unlock()
+	if r.seq != seq || r.scn != scn {
+		return false
+	}
+	r.emitLocked(ev, kv, r.lastT)
+	return true
+}
+
+func (r *Recorder) emitLocked(ev string, kv KV, t int) {
 	r.seq++
-	m := map[string]any{"ev": ev, "seq": r.seq, "scn": r.scn, "t": int(time.Since(r.start) / time.Millisecond)}
+	r.lastT = t
+	m := map[string]any{"ev": ev, "seq": r.seq, "scn": r.scn, "t": t}
 	for k, v := range kv {
 		m[k] = v
 	}
